@@ -52,6 +52,12 @@ pub fn matches(predicate: &str, v: &Viol) -> bool {
         // stream, over the last document's counters: a document over its ratio is yielded as Ok (and the
         // error item, if any, follows it). Only the missing breach is known; a false rejection is not.
         "c07_per_document_ratio" => v.clause == "per-document-ratio" && v.detail.contains("breach expected: true"),
+        // C01: the derived visitor of a recursive struct with many fields needs more than 4 KiB of stack
+        // per nesting level; at the default depth limit of 2000 that does not fit into 8 MiB
+        "c01_wide_struct_stack" => {
+            v.clause == "process-abort-or-hang"
+                && matches!(&v.case, Case::C01(t) if t.target == crate::prop::c01::T01::DeepWide)
+        }
         _ => false,
     }
 }
